@@ -74,6 +74,41 @@ pub fn worker(case: &Value) -> Value {
         return json!({"n": 1, "bad": [], "observed": {"stdout": o.stdout_str(), "end": format!("{:?}", o.end)}});
     }
     let kind = case["k"].as_str().unwrap_or("");
+    if kind == "scope" {
+        // oracle: the checker rejects the program with Label not defined at the row of the jump
+        let mut bads = vec![];
+        let mut hist: std::collections::BTreeMap<String, u64> = Default::default();
+        let mut n = 0u64;
+        for dir in 0..SCOPE_DIRS.len() {
+            for jump in 0..SCOPE_JUMPS.len() {
+                let (prog, bad_id) = cross_scope_program(dir, jump);
+                let printed = print_default(&prog);
+                let o = run_pipeline(&printed.text, &RunOpts { budget: 100_000, ..RunOpts::default() });
+                n += 1;
+                let row = printed.pos.get(&bad_id).map(|p| p.row).unwrap_or(0);
+                let verdict = match &o.end {
+                    vcore::outcome::End::LintError { kind, row: r, .. } if kind == "LabelNotDefined" && *r == row => None,
+                    // RETURN label is not allowed inside a subprogram at all
+                    vcore::outcome::End::LintError { kind, row: r, .. } if kind == "IllegalInSubFunction" && jump == 2 && dir != 1 && *r == row => None,
+                    vcore::outcome::End::LintError { kind, row: r, .. } => Some(format!("rejected with {} at row {} (the jump is on row {})", kind, r, row)),
+                    other => Some(format!("not rejected: the run ended with {} and printed {:?}", other.class(), o.stdout_str())),
+                };
+                match verdict {
+                    None => *hist.entry("rejected:LabelNotDefined".into()).or_insert(0) += 1,
+                    Some(msg) => {
+                        *hist.entry("differ".into()).or_insert(0) += 1;
+                        bads.push(json!({
+                            "sig": format!("C05|scope|{}|{}", SCOPE_JUMPS[jump], SCOPE_DIRS[dir]),
+                            "summary": format!("{} {}: {} — program: {:?}", SCOPE_JUMPS[jump], SCOPE_DIRS[dir], msg, super::truncate_text(&printed.text, 600)),
+                            "text": printed.text,
+                            "case": {"axis": "text", "text": printed.text},
+                        }));
+                    }
+                }
+            }
+        }
+        return json!({"n": n, "nontrivial": n, "hist": hist, "bad": bads});
+    }
     let quick = case["quick"].as_bool().unwrap_or(true);
     let lo = case["lo"].as_u64().unwrap() as usize;
     let hi = case["hi"].as_u64().unwrap() as usize;
@@ -131,6 +166,8 @@ pub fn drive(tier: &str) -> i32 {
         plan.push(json!({"kind": kind, "programs": t}));
         states += t as u64;
     }
+    cases.push(json!({"k": "scope"}));
+    plan.push(json!({"kind": "scope", "programs": SCOPE_DIRS.len() * SCOPE_JUMPS.len()}));
     let total_cases = cases.len();
     let cap = run.wall_cap_s;
     let t0 = run.reporter.start;
@@ -140,7 +177,7 @@ pub fn drive(tier: &str) -> i32 {
         run.capped = true;
     }
     let mut ev = Evidence::new("model_checking");
-    ev.set("rule", "jump layouts: up to 3 labelled blocks in every order (quick: two orders for 3 blocks), each ending in fall-through / END / RETURN / GOTO x / GOSUB x / RETURN x for every x, entered by fall-through or by GOTO, at module level and inside a SUB, every block counting its executions (the program stops after 7). loop escapes: every nest of 1..3 loops over {FOR, FOR STEP -1, WHILE, DO..LOOP UNTIL} with pairwise distinct bounds, a GOTO from the innermost body to a label in the body of every shallower level and after the nest, a GOSUB to a routine after the nest; the same with IF / ELSE / CASE / CASE ELSE blocks between the loops. jumps into a block: GOTO to a label in the middle of an IF / ELSEIF / ELSE / CASE / CASE ELSE block, a WHILE / DO body or an IF inside a WHILE, at module level and inside a SUB, once and three times in a row. one fault: 8 failing statement kinds x 17 containers (main, IF / ELSE / ELSEIF blocks, single-line IF, first / middle / ELSE CASE blocks, FOR / FOR STEP / WHILE / DO bodies, an IF block that ends a FOR body, SUB and FUNCTION bodies, the end of the module with subprograms following) x 3 positions x 6 handler modes x handler action. handler histories: the full tree of sequences up to the depth over {ON ERROR GOTO H1, ON ERROR GOTO H2, ON ERROR GOTO 0, ON ERROR RESUME NEXT, failing statement, trace}. Every program is one path of the reference machine (explicit GOSUB stack, handler mode, pending error) replayed on the implementation; trace output, ERR values and the end state with its row are compared.");
+    ev.set("rule", "jump layouts: up to 3 labelled blocks in every order (quick: two orders for 3 blocks), each ending in fall-through / END / RETURN / GOTO x / GOSUB x / RETURN x for every x, entered by fall-through or by GOTO, at module level and inside a SUB, every block counting its executions (the program stops after 7). loop escapes: every nest of 1..3 loops over {FOR, FOR STEP -1, WHILE, DO..LOOP UNTIL} with pairwise distinct bounds, a GOTO from the innermost body to a label in the body of every shallower level and after the nest, a GOSUB to a routine after the nest; the same with IF / ELSE / CASE / CASE ELSE blocks between the loops. jumps into a block: GOTO to a label in the middle of an IF / ELSEIF / ELSE / CASE / CASE ELSE block, a WHILE / DO body or an IF inside a WHILE, at module level and inside a SUB, once and three times in a row. jumps across scopes: GOTO / GOSUB / RETURN label from a SUB to a module-level label, from the module level into a SUB and from one SUB into another must be rejected with Label not defined at the row of the jump. one fault: 9 failing statement kinds (incl. a built-in that fails after a user FUNCTION has returned within the same statement) x 17 containers (main, IF / ELSE / ELSEIF blocks, single-line IF, first / middle / ELSE CASE blocks, FOR / FOR STEP / WHILE / DO bodies, an IF block that ends a FOR body, SUB and FUNCTION bodies, the end of the module with subprograms following) x 3 positions x 6 handler modes x handler action. handler histories: the full tree of sequences up to the depth over {ON ERROR GOTO H1, ON ERROR GOTO H2, ON ERROR GOTO 0, ON ERROR RESUME NEXT, failing statement, trace}. Every program is one path of the reference machine (explicit GOSUB stack, handler mode, pending error) replayed on the implementation; trace output, ERR values and the end state with its row are compared.");
     ev.set("exhaustive", !run.capped);
     ev.set("plan", json!(plan));
     ev.set("states", states);
